@@ -195,6 +195,17 @@ fn gen_c04(seed: u64, idx: usize, tier: Tier) -> RunScenario {
     let mode = gen_mode(&mut rng, &spec, &mut opts, false);
     let max_outs = if rng.chance(1, 3) { 0 } else { 3 };
     let behav = behav_exit0_all(&spec, &mut rng, max_outs);
+    let mut behav = behav;
+    // now and then one child is much slower than everything else in real time (timers inside
+    // monorail are on the real clock here): preferably one that others depend on
+    let slow = if tier == Tier::Thorough { rng.chance(1, 30) } else { rng.chance(1, 45) };
+    if slow && !behav.is_empty() {
+        let prio = deps_last_prio(&spec);
+        let best = prio.iter().max_by_key(|p| p.1).map(|p| p.0.clone()).unwrap_or_default();
+        let cands: Vec<usize> = (0..behav.len()).filter(|&i| behav[i].target == best).collect();
+        let i = if cands.is_empty() { rng.below(behav.len()) } else { cands[rng.below(cands.len())] };
+        behav[i].exit_pause_ms = if tier == Tier::Thorough { *rng.pick(&[1200u32, 6000, 6000, 12000, 31000]) } else { *rng.pick(&[1200u32, 6000, 6000]) };
+    }
     let mut script = RunScript::simple(opts);
     script.behav = behav;
     script.strategy = gen_strategy(&mut rng);
@@ -265,7 +276,13 @@ pub struct C16;
 fn gen_c16(seed: u64, idx: usize, tier: Tier) -> RunScenario {
     let mut rng = Rng::new(scenario_seed(seed, "C16", idx));
     let maxw = if tier == Tier::Thorough { 48 } else { 16 };
-    let wide = rng.range(2, maxw);
+    let shape = rng.below(12);
+    // mostly 2..maxw; one in twelve a group of 33-48 members; one in twelve a 24-wide group late in a long plan
+    let wide = match shape {
+        0 => rng.range(33, 48),
+        1 => 24,
+        _ => rng.range(2, maxw),
+    };
     // position of the wide layer: first (independent), middle (depends on a base, something depends on it), last
     let pos = rng.below(3);
     let mut targets = vec![];
@@ -280,7 +297,7 @@ fn gen_c16(seed: u64, idx: usize, tier: Tier) -> RunScenario {
     if pos == 1 {
         targets.push(crate::world::TargetSpec { path: "top".into(), uses: vec!["w00".into()], ..Default::default() });
     }
-    let cmds: Vec<&str> = if rng.chance(1, 2) { vec!["build"] } else { vec!["lint", "build"] };
+    let cmds: Vec<&str> = if shape == 1 { vec!["fmt", "lint", "test", "build"] } else if rng.chance(1, 2) { vec!["build"] } else { vec!["lint", "build"] };
     let mut cmd_files = vec![];
     for t in &targets {
         for c in &cmds {
@@ -782,6 +799,24 @@ pub fn check_c06(ctx: &RunCtx, out: &mut Outcome) {
             }
         }
     }
+    // the plan is the same for every command: a pair that is reported for one command and absent
+    // for another was dropped from the document
+    if let Some((c0, g0)) = rg.first() {
+        let t0: BTreeSet<String> = g0.iter().flat_map(|g| g.keys().cloned()).collect();
+        for (c, gs) in &rg[1..] {
+            let t: BTreeSet<String> = gs.iter().flat_map(|g| g.keys().cloned()).collect();
+            if t != t0 {
+                out.violate("status_truthful", "pair_missing_from_document", format!("command '{}' reports targets {:?} but command '{}' reports {:?}", c0, t0, c, t));
+            }
+        }
+        // and in all-targets mode every configured target must be reported
+        if ctx.sc.mode == Mode::All {
+            let all: BTreeSet<String> = spec.targets.iter().map(|t| t.path.clone()).collect();
+            if t0 != all {
+                out.violate("status_truthful", "pair_missing_from_document", format!("no checkpoint: every target {:?} must be reported, document has {:?}", all, t0));
+            }
+        }
+    }
     let failed_flag = doc["failed"].as_bool();
     if failed_flag != Some(any_failure) {
         out.violate("failed_flag", "mismatch", format!("failed={:?} but the injected faults imply failed={}", failed_flag, any_failure));
@@ -909,7 +944,12 @@ fn gen_c11(seed: u64, idx: usize, _tier: Tier) -> (RunScenario, C11Extra) {
         let adir = t.argmaps_path.clone().unwrap_or_else(|| format!("{}/monorail/argmap", path));
         for c in &cmds {
             match rng.below(10) {
-                0 => {} // undefined
+                0 => {
+                    // undefined; sometimes with a near miss whose stem is `<command>.alt`
+                    if rng.chance(1, 2) {
+                        cmd_files.push(CmdFile { target: path.clone(), command: format!("{}__decoy", c), rel: format!("{}/{}.alt.sh", cdir, c), exec: true });
+                    }
+                }
                 1 | 2 => {
                     // explicit definition path, inside or outside the target
                     let rel = if rng.chance(1, 2) { format!("{}/tools/{}-impl", path, c) } else { format!("tools/{}-{}.bin", c, i) };
